@@ -388,6 +388,32 @@ func ruleRetryablePreWire(p *Prog, r *Out) {
 		}
 		// the frame write is the only way bytes of this request leave: no other WriteTo before those returns
 	}
+	// who may produce the retryable "connection closed" sentinel: closeErr (and
+	// through it only Conn.Write, whose two sites are judged below); any other
+	// user could hand it to a request that is already on the wire
+	for _, f := range p.Files {
+		pm := p.parentMaps()[f]
+		ast.Inspect(f, func(n ast.Node) bool {
+			switch x := n.(type) {
+			case *ast.CallExpr:
+				if p.calleeOf(x) == "(*Conn).closeErr" {
+					fn := enclosingFunc(pm, x)
+					r.check(fn == "(*Conn).Write", fn+" uses closeErr", p.pos(x.Pos()), "closeErr() is used only by Conn.Write",
+						fn+" obtains its error from closeErr(), which yields the retryable ErrConnectionClosed when no error was recorded: if that error resolves requests whose HEADERS are already on the wire (the write loop's teardown does), a request the server may have processed is reported retryable and sent again")
+				}
+			case *ast.Ident:
+				if x.Name == "ErrConnectionClosed" {
+					if _, isDecl := pm[x].(*ast.ValueSpec); isDecl {
+						return true
+					}
+					fn := enclosingFunc(pm, x)
+					r.check(fn == "(*Conn).closeErr" || fn == "retryable", fn+" names ErrConnectionClosed", p.pos(x.Pos()), "only closeErr and retryable name the sentinel",
+						fn+" uses ErrConnectionClosed directly; the sentinel means 'never reached the wire' and its production sites are audited one by one")
+				}
+			}
+			return true
+		})
+	}
 	// Conn.Write: resolve(closeErr()) sites
 	wd := p.decl("(*Conn).Write")
 	if wd == nil {
@@ -447,6 +473,20 @@ func ruleRetryablePreWire(p *Prog, r *Out) {
 	})
 	if n < 2 {
 		r.bad("Write resolve sites", p.pos(wd.Pos()), fmt.Sprintf("Conn.Write has %d resolve sites; a request racing Close must be resolved both when the hand-over loses to done and when the loop has already drained", n))
+	}
+	// the write loop's fallback error, which resolves everything still in flight
+	if ld := p.decl("(*Conn).writeLoop"); ld != nil {
+		for _, st := range ld.Body.List {
+			if ifs, ok := st.(*ast.IfStmt); ok && squash(p.text(ifs.Cond)) == "lastErr==nil" {
+				okk := false
+				for _, b := range ifs.Body.List {
+					if as, ok := b.(*ast.AssignStmt); ok && p.text(as.Lhs[0]) == "lastErr" && p.text(as.Rhs[0]) == "io.ErrUnexpectedEOF" {
+						okk = true
+					}
+				}
+				r.check(okk, "write loop fallback error is not retryable", p.pos(ifs.Pos()), "lastErr = io.ErrUnexpectedEOF", "the write loop's fallback error, used to resolve the requests still in flight when the loop was told to stop, is no longer the non-retryable io.ErrUnexpectedEOF")
+			}
+		}
 	}
 	// both loops record an error before closing
 	for _, name := range []string{"(*Conn).writeLoop"} {
